@@ -266,7 +266,7 @@ PROPS['C16'] = {
 }
 PROPS['C11'] = {
     'module': 'RQ.Props.C11',
-    'theorems': ['RQ.Parse.C11_fuel', 'RQ.Parse.C11_noMatch', 'RQ.Parse.C11_wf', 'RQ.Parse.C11_alloc'],
+    'theorems': ['RQ.Parse.C11_fuel', 'RQ.Parse.C11_noMatch', 'RQ.Parse.C11_wf', 'RQ.Parse.C11_alloc', 'RQ.Parse.C11_scan_bounded'],
     'verdict': 'C11',
     'jobs': [{'quick': ['parse', 'seed={seed}', 'n=60000'], 'thorough': ['parse', 'seed={seed}', 'n=1500000']},
              {'quick': ['series', 'seed={seed}', 'n=20000'], 'thorough': ['series', 'seed={seed}', 'n=400000']}] +
